@@ -7,6 +7,8 @@
 (*   {op:"curve", c}                 the catalogued tuple must be SEC 1    *)
 (*                                    valid; secp256k1 / secp256r1 must be *)
 (*                                    the constants this spec carries      *)
+(*   {op:"curve_accept", c, accepted} a caller-defined tuple is accepted   *)
+(*                                    exactly when SEC 1 validates it      *)
 (*   {op:"lin", c, ks, ps, out}      out = sum ks[i] * ps[i]               *)
 (*   {op:"sec", c, P, comp, out}     octet encoding of a point             *)
 (***************************************************************************)
@@ -17,6 +19,7 @@ Expected(e) ==
     CASE e.op = "curve" -> [ok |-> ValidCurve(c)
                                    /\ (e.name = "secp256k1" => c = Secp256k1)
                                    /\ (e.name = "secp256r1" => c = Secp256r1)]
+      [] e.op = "curve_accept" -> [ok |-> ValidCurve(c) = e.accepted, want |-> ValidCurve(c)]
       [] e.op = "lin" ->
             LET terms == [j \in 1..Len(e.ks) |-> RMul(c, N(e.ks[j]), IF "g" \in DOMAIN e.ps[j] THEN G(c) ELSE PtOf(e.ps[j]))]
             IN [ok |-> ECR!Sum(c, terms) = PtOf(e.out), want |-> ECR!Sum(c, terms)]
